@@ -124,8 +124,11 @@ class _Random:
 
 
 class _NdIter:
-    """np.nditer(flags=[external_loop, buffered]) stub: yields all operands as ONE chunk.
-    (The 8192-element buffer boundary of the real iterator is outside the encoding.)"""
+    """np.nditer(flags=[external_loop, buffered]) stub: yields all operands as ONE chunk, or -- with
+    _NdIter.chunk = c -- in consecutive chunks of c elements (the real iterator hands out chunks of at
+    most its buffer size, 8192 elements by default; a small c models that boundary on a small batch)."""
+
+    chunk = None
 
     def __init__(self, ops, flags=None, op_flags=None, **_k):
         arrs = [None if o is None else as_sym(o) for o in ops]
@@ -154,7 +157,14 @@ class _NdIter:
         return False
 
     def __iter__(self):
-        yield tuple(None if o is None else o.reshape(-1) for o in self.operands)
+        flat = [None if o is None else o.reshape(-1) for o in self.operands]
+        n = max([len(f) for f in flat if f is not None] or [0])
+        c = type(self).chunk
+        if not c or c >= n:
+            yield tuple(flat)
+            return
+        for s in range(0, n, c):
+            yield tuple(None if f is None else f[s:s + c] for f in flat)
 
 
 def _reduce_axis(a: SymArray, axis, f, init):
@@ -507,6 +517,14 @@ class _NP(types.ModuleType):
     @staticmethod
     def copy(x, **k):
         return as_sym(x).copy()
+
+    @staticmethod
+    def ravel(x, **k):
+        return as_sym(x).ravel()
+
+    @staticmethod
+    def reshape(x, shape, **k):
+        return as_sym(x).reshape(shape)
 
     @staticmethod
     def concatenate(xs, axis=0, **k):
